@@ -233,6 +233,17 @@ def run_sim(case, rng, extra=None):
         if case.get("default_pop") is not None:
             kw["default_pop_size"] = float(F(case["default_pop"]))
         tree = treesim.contained_coalescent_tree(containing_tree=sp, gene_to_containing_taxon_map=m, rng=rng, **kw)
+        # the order in which the gene nodes of a species were actually created: coalesce_nodes works on
+        # a copy, so the list stored for a species node still starts with its own gene nodes in
+        # creation order (robust against a repair that orders the set)
+        png = getattr(tree, "pop_node_genes", None)
+        if png is not None:
+            used = {}
+            for nd in sp.preorder_node_iter():
+                if nd.taxon is not None and nd.taxon in m.reverse and nd in png:
+                    k = len(m.reverse[nd.taxon])
+                    used[nd.taxon.label] = [gidx[id(g.taxon)] for g in png[nd][:k]]
+            extra["gene_order"] = used
         return tree, (list(gns) if gns is not None else []), None, extra
     raise ValueError(sim)
 
@@ -295,7 +306,10 @@ def _observe(case):
     if case.get("script") is not None:
         rng = ScriptedRng(script=[[k, parse_val(k, v)] for k, v in case["script"]])
     else:
-        rng = ScriptedRng(chooser=Chooser(random.Random(case["seed"]), dict(case.get("policy") or {}, cap=case.get("cap", 300))))
+        pol = dict(case.get("policy") or {}, cap=case.get("cap", 300))
+        if pol.get("events") is not None:
+            pol.update(mode=case["sim"], b=case["b"], d=case["d"])
+        rng = ScriptedRng(chooser=Chooser(random.Random(case["seed"]), pol))
         rng.chooser.owner = rng
     obs = {"extra": {}}
     watch = _WeightedChoiceWatch(rng)
@@ -697,6 +711,21 @@ def gen_case(rng, tier, kind=None):
     return case
 
 
+def directed_cases(tier):
+    """small-scope enumeration: every sequence of the first L event choices (birth / death of the
+    k-th extant lineage) for small N; afterwards births only"""
+    import itertools
+    out = []
+    L = 3 if tier == "quick" else 4
+    alpha = range(4) if tier == "quick" else range(5)
+    for sim in ("bd", "fbd"):
+        for (b, d) in (("1", "1/2"), ("2", "1")) if tier != "quick" else (("1", "1/2"),):
+            for N in ((2, 3) if tier == "quick" else (2, 3, 4)):
+                for ev in itertools.product(alpha, repeat=L):
+                    out.append({"sim": sim, "b": b, "d": d, "N": N, "seed": 7, "policy": {"events": list(ev)}, "cap": 120})
+    return out
+
+
 def truncated(case, obs, rng):
     """a replay of the consumed script cut short: both sides must report exhaustion"""
     n = len(obs["script"])
@@ -1037,6 +1066,12 @@ def run(tier, seed, replay=None):
             print("oracle:", oracle(r["case"], obs))
         elif "seed_case" in r:
             print("oracle:", seed_oracle(r["seed_case"], r["seed"]))
+        elif "probe" in r:
+            probes(ctx)
+            for _path, what, _n in ctx.violations:
+                print("probe:", what)
+            for k, d in ctx.known_hits.items():
+                print("probe (known finding %s): still reproduces" % k)
         else:
             print(json.dumps(r, indent=1)[:3000])
         return 0
@@ -1049,7 +1084,7 @@ def run(tier, seed, replay=None):
     ctx.notes.append("fresh-label site form in the working tree: %s" % form)
     probes(ctx)
 
-    n = 420 if tier == "quick" else 5000
+    n = 600 if tier == "quick" else 5000
     cases = []
     tries = 0
     while len(cases) < n and tries < 4 * n:
@@ -1072,10 +1107,21 @@ def run(tier, seed, replay=None):
             if tc is not None:
                 cases.append(tc)
                 count_dist(ctx, tc, observe(tc))
+    dc = directed_cases(tier)
+    if tier == "quick":
+        dc = ctx.rng.sample(dc, 120)
+    for case in dc:
+        obs = observe(case)
+        if obs["fragile"]:
+            ctx.count("skipped:binary64-tie")
+            continue
+        cases.append(case)
+        count_dist(ctx, case, obs)
+        ctx.count("directed-small-scope")
     core.corr_stage(ctx, cases, observe, to_coq, HEADER, "case_ok", oracle=oracle, show_fn="case_run",
                     nontrivial=nontrivial, search=search, shard=60 if tier == "quick" else 250,
                     sample_fn=lambda c, o: {"case": {k: v for k, v in c.items() if k != "species"}, "draws": len(o["script"]),
                                             "leaves": len(t_leaves(o["out"][1])) if o["out"][0] == "tree" else None})
     seeds_stage(ctx, 200 if tier == "quick" else 10000, 45 if tier == "quick" else 600)
     return ctx.finish(level="proof",
-                      rule="scripted cases: simulator, parameters (N from 0/1 upwards, birth>death>=0 plus a few inadmissible, namespaces absent/short/long/with T-labels/case variants, population sizes, species trees with 1-7 species and 0-4 genes each) and a steering policy are drawn from VERIF_SEED; the draws are chosen lazily as small dyadic rationals / indices / permutations and the consumed script is replayed through the Coq model; 15% of the cases are additionally replayed truncated (both sides must report exhaustion); a case is non-trivial when it returns a tree with >=3 leaves after >=4 draws; distinct by full case content. Real seeds: random.Random(seed) through the oracle only, each run twice")
+                      rule="scripted cases: simulator, parameters (N from 0/1 upwards, birth>death>=0 plus a few inadmissible, namespaces absent/short/long/with T-labels/case variants, population sizes, species trees with 1-7 species and 0-4 genes each) and a steering policy are drawn from VERIF_SEED; the draws are chosen lazily as small dyadic rationals / indices / permutations and the consumed script is replayed through the Coq model; 15% of the cases are additionally replayed truncated (both sides must report exhaustion); plus a directed small-scope enumeration (every sequence of the first 3 (quick: sample of 120) / 4 (thorough: all, 5 events per step) event choices - birth or death of the k-th extant lineage - for N in 2..4, birth_death_tree and fast_birth_death_tree); a case is non-trivial when it returns a tree with >=3 leaves after >=4 draws; distinct by full case content. Real seeds: random.Random(seed) through the oracle only, each run twice")
